@@ -466,6 +466,11 @@ def offenders(res):
         if c > 1:
             out.append(("C03", "started-twice", "target #%d had its command started %d times" % (i, c)))
             break
+    for _, ev in list(res["steps"]) + [(None, t) for _, t in res["inline"]]:
+        if len(ev) > 1 and ev[1] == "fwd" and "stale-efd" in ev:
+            out.append(("*", "signal-on-stale-descriptor", "a signal for target #%s was sent over a descriptor number that "
+                        "is not (any more) that target's open stderr connection" % ev[2]))
+            break
     rc = recount(res)
     if rc["peak"] != peak or rc["connects"] != connects:
         out.append(("*", "harness-bug", "monitor line and event lines disagree: %s vs %s" % (m, rc)))
